@@ -98,16 +98,18 @@ def ikeys : Row → List Nat
   | .e _ _ i => [i]
   | _ => []
 
-/-- navigation depth of a statement / a statement list (fuel of `regenSmt` / `regenChain`) -/
-def szS : Stmt → Nat
-  | .assign l r => szV l + szV r + 1
-  | .ret (some e) => szV e + 1
-  | .selFromW _ _ _ w => szV w + 1
-  | _ => 1
-
-def szB : Block → Nat
-  | .nil => 1
-  | .cons s rest => szS s + szB rest + 1
+/- navigation depth of a statement / a statement list (fuel of `regenSmt` / `regenChain`) -/
+mutual
+  def szS : Stmt → Nat
+    | .assign l r => szV l + szV r + 1
+    | .ret (some e) => szV e + 1
+    | .selFromW _ _ _ w => szV w + 1
+    | .while_ e b => szV e + szB b + 2
+    | _ => 1
+  def szB : Block → Nat
+    | .nil => 1
+    | .cons s rest => szS s + szB rest + 1
+end
 
 /-- what later rows must NOT do for the rows of ONE statement (index `lo`, rows up to `hi`) to read back the same:
     name a block or a predecessor strictly inside, or an `if` inside -/
@@ -363,7 +365,7 @@ theorem declVar_cases {fc : FCtx} {v kl : String} {many : Bool} {m : St} (hok : 
       cases many <;> simp
 
 /-- the statements the statement-level theorem covers (no nested block; instance names other than `self`) -/
-def coreS : Stmt → Bool
+def coreS0 : Stmt → Bool
   | .brk | .cont | .ctl | .ret none | .createNV _ => true
   | .ret (some e) => coreE e
   | .delete v => v != "self"
@@ -616,7 +618,7 @@ theorem assign_new_spec {fc : FCtx} {prev : Option Nat} {n : String} {r : Expr} 
 
 theorem guard_true (st : St) : st.guard true = st := by simp [St.guard]
 
-theorem buildStmt_spec (fc : FCtx) (s : Stmt) (prev : Option Nat) (st : St) (hc : coreS s = true) (hinv : Inv st)
+theorem buildStmt_spec0 (fc : FCtx) (s : Stmt) (prev : Option Nat) (st : St) (hc : coreS0 s = true) (hinv : Inv st)
     (hprev : ∀ k, prev = some k → k < st.pop.length) (hok : (buildStmt fc prev s st).2.ok = true) :
     StmtSpec fc prev s st := by
   cases s with
@@ -638,7 +640,7 @@ theorem buildStmt_spec (fc : FCtx) (s : Stmt) (prev : Option Nat) (st : St) (hc 
       exact bare_spec (.ret st.pop.length none) true (by simp [buildStmt, guard_true]) hinv hprev hok rfl rfl rfl rfl
         (fun ext f h => by simp only [regenSmt, h, genStmt])
     | some e =>
-      simp only [coreS] at hc
+      simp only [coreS0] at hc
       have hokE : (buildExpr fc e (newSmt prev st).2).2.ok = true := by simpa [buildStmt] using hok
       have E := buildExpr_spec fc e (newSmt prev st).2 hc (newSmt_sym hinv) (newSmt_ts hinv hprev).tsv hokE
       obtain ⟨d, hd, hl, hk, ho⟩ := E.grows
@@ -667,7 +669,7 @@ theorem buildStmt_spec (fc : FCtx) (s : Stmt) (prev : Option Nat) (st : St) (hc 
         rw [← List.append_assoc] at this
         simp only [regenSmt, hs, genStmt, this]
   | delete v =>
-    simp only [coreS, bne_iff_ne, ne_eq] at hc
+    simp only [coreS0, bne_iff_ne, ne_eq] at hc
     have hl : (needVar fc v (newSmt prev st).2).2.ok = true := by simpa [buildStmt] using hok
     obtain ⟨x, hf, hnv⟩ := needVar_ok hl hc
     refine bare_spec (.del st.pop.length x) true (by simp [buildStmt, hnv, guard_true]) hinv hprev hok rfl rfl rfl rfl ?_
@@ -677,7 +679,7 @@ theorem buildStmt_spec (fc : FCtx) (s : Stmt) (prev : Option Nat) (st : St) (hc 
     simp only [regenSmt, h, genStmt, regenVar_name hb]
     rfl
   | relate a b r ph =>
-    simp only [coreS, bne_iff_ne, ne_eq, Bool.and_eq_true, decide_eq_true_eq] at hc
+    simp only [coreS0, bne_iff_ne, ne_eq, Bool.and_eq_true, decide_eq_true_eq] at hc
     have hl2 : (needVar fc b (needVar fc a (newSmt prev st).2).2).2.ok = true := by simpa [buildStmt] using hok
     have hl1 : (needVar fc a (newSmt prev st).2).2.ok = true := needVar_ok_mono hl2
     obtain ⟨x, hfx, hnx⟩ := needVar_ok hl1 hc.1
@@ -692,7 +694,7 @@ theorem buildStmt_spec (fc : FCtx) (s : Stmt) (prev : Option Nat) (st : St) (hc 
     simp only [regenSmt, h, genStmt, regenVar_name hbx, regenVar_name hby, phraseOf, phraseToks]
     rfl
   | unrelate a b r ph =>
-    simp only [coreS, bne_iff_ne, ne_eq, Bool.and_eq_true, decide_eq_true_eq] at hc
+    simp only [coreS0, bne_iff_ne, ne_eq, Bool.and_eq_true, decide_eq_true_eq] at hc
     have hl2 : (needVar fc b (needVar fc a (newSmt prev st).2).2).2.ok = true := by simpa [buildStmt] using hok
     have hl1 : (needVar fc a (newSmt prev st).2).2.ok = true := needVar_ok_mono hl2
     obtain ⟨x, hfx, hnx⟩ := needVar_ok hl1 hc.1
@@ -707,7 +709,7 @@ theorem buildStmt_spec (fc : FCtx) (s : Stmt) (prev : Option Nat) (st : St) (hc 
     simp only [regenSmt, h, genStmt, regenVar_name hbx, regenVar_name hby, phraseOf, phraseToks]
     rfl
   | relateU a b r ph u =>
-    simp only [coreS, bne_iff_ne, ne_eq, Bool.and_eq_true, decide_eq_true_eq] at hc
+    simp only [coreS0, bne_iff_ne, ne_eq, Bool.and_eq_true, decide_eq_true_eq] at hc
     have hl3 : (needVar fc u (needVar fc b (needVar fc a (newSmt prev st).2).2).2).2.ok = true := by simpa [buildStmt] using hok
     have hl2 : (needVar fc b (needVar fc a (newSmt prev st).2).2).2.ok = true := needVar_ok_mono hl3
     have hl1 : (needVar fc a (newSmt prev st).2).2.ok = true := needVar_ok_mono hl2
@@ -726,7 +728,7 @@ theorem buildStmt_spec (fc : FCtx) (s : Stmt) (prev : Option Nat) (st : St) (hc 
     simp only [regenSmt, h, genStmt, regenVar_name hbx, regenVar_name hby, regenVar_name hbz, phraseOf, phraseToks]
     simp
   | unrelateU a b r ph u =>
-    simp only [coreS, bne_iff_ne, ne_eq, Bool.and_eq_true, decide_eq_true_eq] at hc
+    simp only [coreS0, bne_iff_ne, ne_eq, Bool.and_eq_true, decide_eq_true_eq] at hc
     have hl3 : (needVar fc u (needVar fc b (needVar fc a (newSmt prev st).2).2).2).2.ok = true := by simpa [buildStmt] using hok
     have hl2 : (needVar fc b (needVar fc a (newSmt prev st).2).2).2.ok = true := needVar_ok_mono hl3
     have hl1 : (needVar fc a (newSmt prev st).2).2.ok = true := needVar_ok_mono hl2
@@ -749,11 +751,11 @@ theorem buildStmt_spec (fc : FCtx) (s : Stmt) (prev : Option Nat) (st : St) (hc 
       intro h; simp at h; exact h.1.1
     cases l with
     | field h a =>
-      simp only [coreS, Bool.and_eq_true] at hc
+      simp only [coreS0, Bool.and_eq_true] at hc
       exact assign_expr_spec ((newSmt prev st).2.guard (plainE (newSmt prev st).2 r)) (by simp) (by simp) hM0ok
         (by simp [buildStmt, buildLval]) hinv hprev hc.2 (by simpa [coreE] using hc.1) hok
     | var n =>
-      simp only [coreS, Bool.and_eq_true, bne_iff_ne, ne_eq] at hc
+      simp only [coreS0, Bool.and_eq_true, bne_iff_ne, ne_eq] at hc
       have hn : n ≠ "self" := hc.1
       have hg : ∀ m : St, m.guard (n != "self") = m := by intro m; simp [St.guard, hn]
       cases hcnd : (canonName n != n || lowerStr n == "sender") with
@@ -771,23 +773,23 @@ theorem buildStmt_spec (fc : FCtx) (s : Stmt) (prev : Option Nat) (st : St) (hc 
           have hs : (n == "self") = false := by simpa using hn
           exact assign_new_spec ((newSmt prev st).2.guard (plainE (newSmt prev st).2 r)) (by simp) (by simp) hM0ok
             (n != "self") (by simp [buildStmt, buildLval, lookupVar_eq hcnd, hg, hf, hs]) hinv hprev hc.2 hn hok
-    | _ => simp [coreS] at hc
+    | _ => simp [coreS0] at hc
   | create v kl =>
-    simp only [coreS, bne_iff_ne, ne_eq] at hc
+    simp only [coreS0, bne_iff_ne, ne_eq] at hc
     refine decl_spec v kl false (v != "self" && fc.classes.contains kl) (fun x => .cr st.pop.length x kl)
       (by simp [buildStmt]) hinv hprev hok hc rfl (fun x => ⟨rfl, rfl, rfl⟩) ?_
     intro q f x h hx
     simp only [regenSmt, h, genStmt, hx]
     simp [nameTok, hc]
   | selFrom card v kl =>
-    simp only [coreS, bne_iff_ne, ne_eq, Bool.and_eq_true, beq_iff_eq, decide_eq_true_eq] at hc
+    simp only [coreS0, bne_iff_ne, ne_eq, Bool.and_eq_true, beq_iff_eq, decide_eq_true_eq] at hc
     refine decl_spec v kl (isMany card) (v != "self" && fc.classes.contains kl)
       (fun x => .fio st.pop.length x kl (lowerStr card))
       (by simp [buildStmt]) hinv hprev hok hc.1 rfl (fun x => ⟨rfl, rfl, rfl⟩) ?_
     intro q f x h hx
     simp only [regenSmt, h, genStmt, hx]
     simp [nameTok, hc.1, hc.2]
-  | _ => simp [coreS] at hc
+  | _ => simp [coreS0] at hc
 
 /-! ### the flag is never set back -/
 
@@ -826,7 +828,7 @@ theorem buildLval_ok_mono {fc : FCtx} {l : Expr} {m : St} (h : (buildLval fc l m
   | field e a => exact buildExpr_ok_mono fc _ _ (by simpa [buildLval] using h)
   | _ => simp [buildLval] at h
 
-theorem buildStmt_ok_mono_core {fc : FCtx} {prev : Option Nat} {s : Stmt} {st : St} (hc : coreS s = true)
+theorem buildStmt_ok_mono_core0 {fc : FCtx} {prev : Option Nat} {s : Stmt} {st : St} (hc : coreS0 s = true)
     (h : (buildStmt fc prev s st).2.ok = true) : st.ok = true := by
   cases s with
   | brk | cont | ctl => simp [buildStmt] at h; exact h.1
@@ -864,22 +866,35 @@ theorem buildStmt_ok_mono_core {fc : FCtx} {prev : Option Nat} {s : Stmt} {st : 
     have := buildExpr_ok_mono fc r _ (buildLval_ok_mono h1)
     simp at this; exact this.1.1
   | create v kl =>
-    simp only [coreS, bne_iff_ne, ne_eq] at hc
+    simp only [coreS0, bne_iff_ne, ne_eq] at hc
     have := declVar_ok_mono (show (declVar fc v false kl ((newSmt prev st).2.guard
       (v != "self" && fc.classes.contains kl))).2.ok = true by simpa [buildStmt] using h) hc
     simp at this; exact this.1.1
   | selFrom card v kl =>
-    simp only [coreS, bne_iff_ne, ne_eq, Bool.and_eq_true, beq_iff_eq, decide_eq_true_eq] at hc
+    simp only [coreS0, bne_iff_ne, ne_eq, Bool.and_eq_true, beq_iff_eq, decide_eq_true_eq] at hc
     have := declVar_ok_mono (show (declVar fc v (isMany card) kl ((newSmt prev st).2.guard
       (v != "self" && fc.classes.contains kl))).2.ok = true by simpa [buildStmt] using h) hc.1
     simp at this; exact this.1.1
-  | _ => simp [coreS] at hc
+  | _ => simp [coreS0] at hc
 
 /-! ### the statement-list loop (R661) -/
 
-def coreB : Block → Bool
-  | .nil => true
-  | .cons s rest => coreS s && coreB rest
+@[simp] theorem pushScope_pop (h : Handle) (st : St) : (pushScope h st).pop = st.pop := rfl
+@[simp] theorem pushScope_ok (h : Handle) (st : St) : (pushScope h st).ok = st.ok := rfl
+@[simp] theorem pushScope_scopes (h : Handle) (st : St) : (pushScope h st).scopes = ⟨h, []⟩ :: st.scopes := rfl
+@[simp] theorem popScope_pop (st : St) : (popScope st).pop = st.pop := rfl
+@[simp] theorem popScope_ok (st : St) : (popScope st).ok = st.ok := rfl
+@[simp] theorem popScope_scopes (st : St) : (popScope st).scopes = st.scopes.tail := rfl
+
+/- the statements / statement lists the body-level theorems cover: `coreS0` and, recursively, `while` -/
+mutual
+  def coreS : Stmt → Bool
+    | .while_ e b => coreE e && coreB b
+    | s => coreS0 s
+  def coreB : Block → Bool
+    | .nil => true
+    | .cons s rest => coreS s && coreB rest
+end
 
 def headOf (n : Nat) : Block → Option Nat
   | .nil => none
@@ -953,13 +968,47 @@ def okAll (fc : FCtx) : Option Nat → Block → St → Bool
   | prev, .cons s rest, st =>
     (buildStmt fc prev s st).2.ok && okAll fc (some (buildStmt fc prev s st).1) rest (buildStmt fc prev s st).2
 
+attribute [local irreducible] buildStmt buildStmts in
+mutual
+theorem buildStmt_ok_mono_core (fc : FCtx) : ∀ (s : Stmt) (prev : Option Nat) (st : St), coreS s = true →
+    (buildStmt fc prev s st).2.ok = true → st.ok = true
+  | .while_ e b, prev, st, hc, h => by
+    simp only [coreS, Bool.and_eq_true] at hc
+    simp only [buildStmt, withBlock, new_ok, popScope_ok] at h
+    have h1 := buildStmts_ok_mono_core fc b none _ hc.2 h
+    simp only [pushScope_ok, new_ok] at h1
+    have := buildExpr_ok_mono fc e _ h1
+    simp at this; exact this.1
+  | .assign l r, prev, st, hc, h => buildStmt_ok_mono_core0 (by simpa [coreS] using hc) h
+  | .ret oe, prev, st, hc, h => buildStmt_ok_mono_core0 (by simpa [coreS] using hc) h
+  | .brk, prev, st, hc, h => buildStmt_ok_mono_core0 (by simpa [coreS] using hc) h
+  | .cont, prev, st, hc, h => buildStmt_ok_mono_core0 (by simpa [coreS] using hc) h
+  | .ctl, prev, st, hc, h => buildStmt_ok_mono_core0 (by simpa [coreS] using hc) h
+  | .create v kl, prev, st, hc, h => buildStmt_ok_mono_core0 (by simpa [coreS] using hc) h
+  | .createNV kl, prev, st, hc, h => buildStmt_ok_mono_core0 (by simpa [coreS] using hc) h
+  | .delete v, prev, st, hc, h => buildStmt_ok_mono_core0 (by simpa [coreS] using hc) h
+  | .relate a b r ph, prev, st, hc, h => buildStmt_ok_mono_core0 (by simpa [coreS] using hc) h
+  | .relateU a b r ph u, prev, st, hc, h => buildStmt_ok_mono_core0 (by simpa [coreS] using hc) h
+  | .unrelate a b r ph, prev, st, hc, h => buildStmt_ok_mono_core0 (by simpa [coreS] using hc) h
+  | .unrelateU a b r ph u, prev, st, hc, h => buildStmt_ok_mono_core0 (by simpa [coreS] using hc) h
+  | .selFrom c v kl, prev, st, hc, h => buildStmt_ok_mono_core0 (by simpa [coreS] using hc) h
+  | .selFromW c v kl w, prev, st, hc, h => by simp [coreS, coreS0] at hc
+  | .selRel c v hd ch, prev, st, hc, h => by simp [coreS, coreS0] at hc
+  | .selRelW c v hd ch w, prev, st, hc, h => by simp [coreS, coreS0] at hc
+  | .forEach v sv b, prev, st, hc, h => by simp [coreS, coreS0] at hc
+  | .if_ e b el els, prev, st, hc, h => by simp [coreS, coreS0] at hc
+  | .invoke e, prev, st, hc, h => by simp [coreS, coreS0] at hc
+  | .genEvt l m d t, prev, st, hc, h => by simp [coreS, coreS0] at hc
+  | .createEvt v l m d t, prev, st, hc, h => by simp [coreS, coreS0] at hc
+  | .genPre e, prev, st, hc, h => by simp [coreS, coreS0] at hc
 theorem buildStmts_ok_mono_core (fc : FCtx) : ∀ (ss : Block) (prev : Option Nat) (st : St), coreB ss = true →
     (buildStmts fc prev ss st).ok = true → st.ok = true
   | .nil, _, st, _, h => by simpa [buildStmts] using h
   | .cons s rest, prev, st, hc, h => by
     simp only [coreB, Bool.and_eq_true] at hc
     simp only [buildStmts] at h
-    exact buildStmt_ok_mono_core hc.1 (buildStmts_ok_mono_core fc rest _ _ hc.2 h)
+    exact buildStmt_ok_mono_core fc s prev st hc.1 (buildStmts_ok_mono_core fc rest _ _ hc.2 h)
+end
 
 /-- `ok` of the final state is `ok` after every statement -/
 theorem okAll_of_ok (fc : FCtx) : ∀ (ss : Block) (prev : Option Nat) (st : St), coreB ss = true →
@@ -1047,6 +1096,362 @@ structure ChainSpec (fc : FCtx) (prev : Option Nat) (ss : Block) (st : St) : Pro
 theorem ikeys_sub_skeys (x : Row) : ∀ k ∈ ikeys x, k ∈ skeys x := by
   intro k hk; cases x <;> simp [ikeys, skeys] at hk ⊢ <;> exact hk
 
+theorem isElifOrElse_false {q : FlatPop} {s : Nat} {row : Row} (h : smtSub q s = some row) (hi : ikeys row = []) :
+    isElifOrElse q s = false := by
+  unfold isElifOrElse
+  rw [h]
+  cases row <;> simp [ikeys] at hi ⊢
+
+theorem one_le_szB : ∀ b : Block, 1 ≤ szB b
+  | .nil => by simp [szB]
+  | .cons s r => by simp [szB]
+
+theorem firstStmt_some {q : FlatPop} {kb : Nat} (hrow : q[kb + 1]? = some (.smt kb none))
+    (hne : isElifOrElse q (kb + 1) = false)
+    (hbefore : ∀ i x, i ≤ kb → q[i]? = some x → ∀ p, x ≠ .smt kb p) : firstStmt q kb = some (kb + 1) := by
+  unfold firstStmt
+  have hlt : kb + 1 < q.length := by
+    rcases Nat.lt_or_ge (kb + 1) q.length with h' | h'
+    · exact h'
+    · simp [List.getElem?_eq_none h'] at hrow
+  apply range_find_some hlt
+  · simp [hrow, hne]
+  · intro i hi
+    cases hq : q[i]? with
+    | none => rfl
+    | some x =>
+      cases x with
+      | smt b' p =>
+        cases p with
+        | some k => rfl
+        | none =>
+          have : b' ≠ kb := by
+            intro h; subst h
+            exact hbefore i _ (by omega) hq none rfl
+          simp [this]
+      | _ => rfl
+
+theorem firstStmt_none {q : FlatPop} {kb : Nat} (h : ∀ x ∈ q, ∀ p, x ≠ .smt kb p) : firstStmt q kb = none := by
+  unfold firstStmt
+  apply range_find_none
+  intro i hi
+  cases hq : q[i]? with
+  | none => rfl
+  | some x =>
+    have hm := List.mem_of_getElem? hq
+    cases x with
+    | smt b' p =>
+      cases p with
+      | some k => rfl
+      | none =>
+        have : b' ≠ kb := by
+          intro h'; subst h'
+          exact h _ hm none rfl
+        simp [this]
+    | _ => rfl
+
+theorem getElem?_lt_of_some {l : List Row} {i : Nat} {x : Row} (h : l[i]? = some x) : i < l.length := by
+  rcases Nat.lt_or_ge i l.length with h' | h'
+  · exact h'
+  · simp [List.getElem?_eq_none h'] at h
+
+/-- `while`: ACT_SMT, the condition's values, a new ACT_BLK with its scope and statement list, ACT_WHL -/
+theorem while_spec {fc : FCtx} {prev : Option Nat} {e : Expr} {b : Block} {st : St} (hce : coreE e = true)
+    (hinv : Inv st) (hprev : ∀ k, prev = some k → k < st.pop.length)
+    (hok : (buildStmt fc prev (.while_ e b) st).2.ok = true)
+    (hM : ∀ st' : St, (buildStmts fc none b st').ok = true → st'.ok = true)
+    (hC : ∀ st' : St, Inv st' → (buildStmts fc none b st').ok = true → ChainSpec fc none b st') :
+    StmtSpec fc prev (.while_ e b) st := by
+  -- names
+  have hb : buildStmt fc prev (.while_ e b) st = (st.pop.length,
+      ((popScope (buildStmts fc none b (pushScope (.blk (buildExpr fc e (newSmt prev st).2).2.pop.length)
+        ((buildExpr fc e (newSmt prev st).2).2.new (.blk false)).2))).new
+        (.whl st.pop.length (buildExpr fc e (newSmt prev st).2).2.pop.length (buildExpr fc e (newSmt prev st).2).1)).2) := by
+    simp [buildStmt, withBlock]
+  generalize hK : pushScope (.blk (buildExpr fc e (newSmt prev st).2).2.pop.length)
+        ((buildExpr fc e (newSmt prev st).2).2.new (.blk false)).2 = K at hb
+  have hKpop : K.pop = (buildExpr fc e (newSmt prev st).2).2.pop ++ [Row.blk false] := by rw [← hK]; simp
+  have hKsc : K.scopes = ⟨.blk (buildExpr fc e (newSmt prev st).2).2.pop.length, []⟩ ::
+      (buildExpr fc e (newSmt prev st).2).2.scopes := by rw [← hK]; simp
+  have hKok : K.ok = (buildExpr fc e (newSmt prev st).2).2.ok := by rw [← hK]; simp
+  have hinner : (buildStmts fc none b K).ok = true := by rw [hb] at hok; simpa using hok
+  have hokV : (buildExpr fc e (newSmt prev st).2).2.ok = true := by rw [← hKok]; exact hM K hinner
+  have hts0 := newSmt_ts hinv hprev
+  have E := buildExpr_spec fc e (newSmt prev st).2 hce (newSmt_sym hinv) hts0.tsv hokV
+  obtain ⟨dE, hdE, hlE, _, hoE⟩ := E.grows
+  have hVts := hts0.expr E
+  have hVsym := E.symOK (newSmt_sym (prev := prev) hinv)
+  have hVsc : (buildExpr fc e (newSmt prev st).2).2.scopes = st.scopes := by rw [E.scopes]; simp
+  have hVlen : (buildExpr fc e (newSmt prev st).2).2.pop.length = st.pop.length + 1 + dE.length := by
+    rw [hdE]; simp; omega
+  obtain ⟨b0, hb0, hb0lt⟩ := hinv.blk
+  have invK : Inv K := by
+    refine ⟨?_, ?_, ⟨(buildExpr fc e (newSmt prev st).2).2.pop.length, by rw [hKsc]; rfl, by rw [hKpop]; simp⟩⟩
+    · rw [hKpop]; exact hVts.append1 _ (by simp [Row.valOf, Row.smtOf, skeys])
+    · intro n v hf
+      rw [hKsc] at hf
+      simp only [findSym, List.lookup] at hf
+      obtain ⟨bb, hbb⟩ := hVsym n v hf
+      refine ⟨bb, ?_⟩
+      rw [hKpop, List.getElem?_append_left (getElem?_lt_of_some hbb)]; exact hbb
+  have C := hC K invK hinner
+  obtain ⟨dC, hdC, hszC, hheadC, hkC⟩ := C.grows
+  have hKlen : K.pop.length = (buildExpr fc e (newSmt prev st).2).2.pop.length + 1 := by rw [hKpop]; simp
+  have hcbK : curBlkD K.scopes = (buildExpr fc e (newSmt prev st).2).2.pop.length := by rw [hKsc]; rfl
+  have hEregen := E.regen
+  have hok0 : st.ok = true := by have := E.ok0; simp at this; exact this.1
+  have hdE' : (buildExpr fc e (newSmt prev st).2).2.pop = st.pop ++ (.smt (curBlkD st.scopes) prev :: dE) := by
+    rw [hdE]; simp
+  clear E hdE
+  generalize buildExpr fc e (newSmt prev st).2 = X at *
+  -- the rows between the ACT_SMT and the ACT_WHL
+  have hD : ∀ x ∈ dE ++ [Row.blk false] ++ dC, (∀ k, x.smtOf = some k → st.pop.length < k) ∧
+      (∀ b' p, x = .smt b' p → st.pop.length < b' ∧ ∀ k, p = some k → st.pop.length < k) ∧
+      (∀ k ∈ ikeys x, st.pop.length < k) := by
+    intro x hx
+    rcases List.mem_append.1 hx with hx | hx
+    · rcases List.mem_append.1 hx with hx | hx
+      · obtain ⟨h1, h2⟩ := expr_rows_plain (fc := fc) (e := e) (st := st) hoE x hx
+        refine ⟨fun k hk => (by rw [h1] at hk; cases hk), ?_, ?_⟩
+        · intro b' p hxe; subst hxe; simp [skeys] at h2
+        · intro k hk; cases x <;> simp [ikeys, skeys] at hk h2
+      · simp at hx; subst hx
+        exact ⟨fun k hk => (by simp [Row.smtOf] at hk), fun b' p h => (by cases h), fun k hk => (by simp [ikeys] at hk)⟩
+    · obtain ⟨h2, h3⟩ := hkC x hx
+      refine ⟨fun k hk => (by have := C.keysGe dC hdC x hx k hk; omega), ?_, fun k hk => (by have := h3 k hk; omega)⟩
+      intro b' p hxe
+      obtain ⟨ha, hb'⟩ := h2 b' p hxe
+      refine ⟨(by rcases ha with h | h <;> omega), ?_⟩
+      intro k hk
+      rcases hb' k hk with h | h
+      · rw [hk] at h; cases h
+      · omega
+  have hP : ((popScope (buildStmts fc none b K)).new (.whl st.pop.length X.2.pop.length X.1)).2.pop =
+      st.pop ++ (.smt (curBlkD st.scopes) prev :: (dE ++ [Row.blk false] ++ dC ++ [.whl st.pop.length X.2.pop.length X.1])) := by
+    simp [hdC, hKpop, hdE']
+  have hPin : (buildStmts fc none b K).pop = st.pop ++ (.smt (curBlkD st.scopes) prev :: (dE ++ [Row.blk false] ++ dC)) := by
+    simp [hdC, hKpop, hdE']
+  have hinlen : (buildStmts fc none b K).pop.length = st.pop.length + 1 + (dE ++ [Row.blk false] ++ dC).length := by
+    rw [hPin]; simp; omega
+  have hTS : TS ((popScope (buildStmts fc none b K)).new (.whl st.pop.length X.2.pop.length X.1)).2.pop := by
+    simp only [new_pop, popScope_pop]
+    apply C.inv.ts.append1
+    refine ⟨fun k hk => (by simp [Row.valOf] at hk), fun k hk => ?_, fun k hk => (by simp [skeys] at hk)⟩
+    simp [Row.smtOf] at hk; omega
+  -- no row before the ACT_WHL claims the statement
+  have hnone : ∀ x ∈ (buildStmts fc none b K).pop, x.smtOf ≠ some st.pop.length := by
+    intro x hx hxe
+    rw [hPin] at hx
+    rcases List.mem_append.1 hx with h | h
+    · obtain ⟨i, hi⟩ := List.getElem?_of_mem h
+      have := (hinv.ts i x hi).2.1 _ hxe
+      have := getElem?_lt_of_some hi
+      omega
+    · simp only [List.mem_cons] at h
+      rcases h with rfl | h
+      · simp [Row.smtOf] at hxe
+      · have := (hD x h).1 _ hxe; omega
+  have hfind : ∀ ext, smtSub (((popScope (buildStmts fc none b K)).new (.whl st.pop.length X.2.pop.length X.1)).2.pop ++ ext)
+      st.pop.length = some (.whl st.pop.length X.2.pop.length X.1) := by
+    intro ext
+    apply smtSub_at (j := (buildStmts fc none b K).pop.length) hTS (by simp) rfl
+    intro i x hi hj hx
+    simp only [new_pop, popScope_pop] at hx
+    rw [List.getElem?_append_left hj] at hx
+    exact hnone x (List.mem_of_getElem? hx)
+  have hFsc : ((popScope (buildStmts fc none b K)).new (.whl st.pop.length X.2.pop.length X.1)).2.scopes = st.scopes := by
+    simp [C.shape.2, hKsc, hVsc]
+  have hregen : ∀ (ext : List Row) (fuel : Nat),
+      FreshS st.pop.length ((popScope (buildStmts fc none b K)).new (.whl st.pop.length X.2.pop.length X.1)).2.pop.length ext →
+      szS (.while_ e b) ≤ fuel →
+      regenSmt (((popScope (buildStmts fc none b K)).new (.whl st.pop.length X.2.pop.length X.1)).2.pop ++ ext) fuel
+        st.pop.length = genStmt (.while_ e b) := by
+    intro ext fuel hfr hf
+    simp only [szS] at hf
+    have hszb := one_le_szB b
+    obtain ⟨f, rfl⟩ := fuel_succ (by omega : 1 ≤ fuel)
+    obtain ⟨g, rfl⟩ := fuel_succ (by omega : 1 ≤ f)
+    have hs := hfind ext
+    simp only [regenSmt, hs, genStmt]
+    simp only [new_pop, popScope_pop] at hfr ⊢
+    have hFlen : ((buildStmts fc none b K).pop ++ [Row.whl st.pop.length X.2.pop.length X.1]).length =
+        (buildStmts fc none b K).pop.length + 1 := by simp
+    rw [hFlen] at hfr
+    have hinl : (buildStmts fc none b K).pop.length = K.pop.length + dC.length := by rw [hdC]; simp
+    -- the condition
+    have hval : regenVal ((buildStmts fc none b K).pop ++ [Row.whl st.pop.length X.2.pop.length X.1] ++ ext) (g + 1) X.1 =
+        genExpr e := by
+      have := hEregen ([Row.blk false] ++ dC ++ [Row.whl st.pop.length X.2.pop.length X.1] ++ ext) (g + 1) (by omega)
+      have e1 : (buildStmts fc none b K).pop ++ [Row.whl st.pop.length X.2.pop.length X.1] ++ ext =
+          X.2.pop ++ ([Row.blk false] ++ dC ++ [Row.whl st.pop.length X.2.pop.length X.1] ++ ext) := by
+        simp [hdC, hKpop]
+      rw [e1]; exact this
+    -- rows up to the new block are no statement of it
+    have hbefore : ∀ i x, i ≤ X.2.pop.length →
+        ((buildStmts fc none b K).pop ++ [Row.whl st.pop.length X.2.pop.length X.1] ++ ext)[i]? = some x →
+        ∀ p, x ≠ .smt X.2.pop.length p := by
+      intro i x hi hx p hxe
+      have h2 : i < (buildStmts fc none b K).pop.length := by omega
+      rw [List.append_assoc, List.getElem?_append_left h2, hdC, List.getElem?_append_left (by omega), hKpop] at hx
+      by_cases h3 : i < X.2.pop.length
+      · rw [List.getElem?_append_left h3] at hx
+        have := (hVts i x hx).2.2 X.2.pop.length (by subst hxe; simp [skeys])
+        omega
+      · have : i = X.2.pop.length := by omega
+        subst this
+        rw [List.getElem?_append_right (Nat.le_refl _)] at hx
+        simp at hx; subst hx; cases hxe
+    have hfirst : firstStmt ((buildStmts fc none b K).pop ++ [Row.whl st.pop.length X.2.pop.length X.1] ++ ext)
+        X.2.pop.length = headOf K.pop.length b := by
+      cases b with
+      | nil =>
+        have hk : buildStmts fc none .nil K = K := by simp [buildStmts]
+        simp only [headOf]
+        apply firstStmt_none
+        intro x hx p hxe
+        rw [hk] at hx
+        rcases List.mem_append.1 hx with h | h
+        · rcases List.mem_append.1 h with h | h
+          · obtain ⟨i, hi⟩ := List.getElem?_of_mem h
+            have hil := getElem?_lt_of_some hi
+            rw [hk] at hbefore
+            exact hbefore i x (by rw [hKpop] at hil; simp at hil; omega)
+              (by rw [List.append_assoc, List.getElem?_append_left hil]; exact hi) p hxe
+          · simp at h; subst h; cases hxe
+        · obtain ⟨h1, _⟩ := hfr x h
+          have := (h1 _ p hxe).1
+          rw [hk] at this
+          omega
+      | cons s r =>
+        obtain ⟨d', hd'⟩ := hheadC s r rfl
+        obtain ⟨row, hrow, hik⟩ := C.first ([Row.whl st.pop.length X.2.pop.length X.1] ++ ext) s r rfl
+        rw [← List.append_assoc] at hrow
+        simp only [headOf]
+        rw [hKlen] at hrow ⊢
+        have hdl : 1 ≤ dC.length := by rw [hd']; simp
+        apply firstStmt_some _ (isElifOrElse_false hrow hik) hbefore
+        rw [List.append_assoc, List.getElem?_append_left (by rw [hinl, hKlen]; omega), hdC,
+          List.getElem?_append_right (by omega), hd', hcbK]
+        simp [hKlen]
+    have hblk : regenBlk ((buildStmts fc none b K).pop ++ [Row.whl st.pop.length X.2.pop.length X.1] ++ ext) (g + 1)
+        X.2.pop.length = genBlock b := by
+      simp only [regenBlk, hfirst]
+      rw [List.append_assoc]
+      apply C.regen ([Row.whl st.pop.length X.2.pop.length X.1] ++ ext) g _ (by omega)
+      intro x hx k hk
+      rcases List.mem_append.1 hx with h | h
+      · simp at h; subst h; simp [skeys] at hk
+      · obtain ⟨h1, h2⟩ := hfr x h
+        cases x with
+        | smt b' p =>
+          obtain ⟨ha, hb'⟩ := h1 b' p rfl
+          simp only [skeys, List.mem_cons] at hk
+          rcases hk with rfl | hk
+          · omega
+          · cases p with
+            | none => simp at hk
+            | some k' => simp at hk; subst hk; have := hb' k rfl; omega
+        | el a1 a2 a3 a4 => simp [skeys] at hk; subst hk; have := h2 k (by simp [ikeys]); omega
+        | e a1 a2 a3 => simp [skeys] at hk; subst hk; have := h2 k (by simp [ikeys]); omega
+        | _ => simp [skeys] at hk
+    rw [hval, hblk]
+  refine ⟨hok0, by rw [hb], ⟨dE ++ [Row.blk false] ++ dC ++ [.whl st.pop.length X.2.pop.length X.1], ?_, ?_, ?_⟩,
+    ⟨?_, ?_, ?_⟩, ?_, ?_, ?_, ?_, ?_⟩
+  · rw [hb]; exact hP
+  · simp [szS]; omega
+  · intro x hx
+    rcases List.mem_append.1 hx with h | h
+    · obtain ⟨h1, h2, h3⟩ := hD x h
+      refine ⟨fun k hk => Nat.le_of_lt (h1 k hk), ?_, fun k hk => Nat.le_of_lt (h3 k hk)⟩
+      intro b' p hxe
+      exact ⟨.inr (h2 b' p hxe).1, (h2 b' p hxe).2⟩
+    · simp at h; subst h
+      exact ⟨fun k hk => (by simp [Row.smtOf] at hk; omega), fun b' p h => (by cases h), fun k hk => (by simp [ikeys] at hk)⟩
+  · rw [hb]; exact hTS
+  · rw [hb]
+    exact hVsym.mono (hFsc.trans hVsc.symm) (d := [Row.blk false] ++ dC ++ [.whl st.pop.length X.2.pop.length X.1])
+      (by simp [hdC, hKpop])
+  · rw [hb]
+    refine ⟨b0, by rw [hFsc]; exact hb0, ?_⟩
+    rw [hP]; simp; omega
+  · rw [hb]; rw [hFsc]; exact ⟨rfl, rfl⟩
+  · intro ext; rw [hb]; exact ⟨_, hfind ext, rfl⟩
+  · intro ext fuel hfr hf; rw [hb] at hfr ⊢; exact hregen ext fuel hfr hf
+  · intro ext i b' p hi hge hlt
+    rw [hb] at hi hlt ⊢
+    by_cases hin : i = st.pop.length
+    · subst hin; exact ⟨_, hfind ext, rfl⟩
+    · simp only [new_pop, popScope_pop] at hi hlt ⊢
+      by_cases h1 : i < K.pop.length
+      · exfalso
+        have h2 : i < (buildStmts fc none b K).pop.length := by rw [hdC]; simp; omega
+        rw [List.append_assoc, List.getElem?_append_left h2, hdC, List.getElem?_append_left h1, hKpop, hdE',
+          List.append_assoc, List.getElem?_append_right hge] at hi
+        have e1 : i - st.pop.length = (i - st.pop.length - 1) + 1 := by omega
+        rw [e1] at hi
+        simp only [List.cons_append, List.getElem?_cons_succ] at hi
+        have hm := List.mem_of_getElem? hi
+        rcases List.mem_append.1 hm with h | h
+        · have := (expr_rows_plain (fc := fc) (e := e) (st := st) hoE _ h).2; simp [skeys] at this
+        · simp at h
+      · by_cases h2 : i < (buildStmts fc none b K).pop.length
+        · rw [List.append_assoc] at hi ⊢
+          exact C.subsAll ([.whl st.pop.length X.2.pop.length X.1] ++ ext) i b' p hi (by omega) h2
+        · exfalso
+          have : i = (buildStmts fc none b K).pop.length := by simp at hlt; omega
+          subst this
+          rw [List.append_assoc, List.getElem?_append_right (Nat.le_refl _)] at hi
+          simp at hi
+  · intro ext hext
+    rw [hb]
+    simp only [new_pop, popScope_pop]
+    exact subCount_parts hnone hext rfl
+
+
+
+attribute [local irreducible] buildStmt buildStmts in
+mutual
+theorem buildStmt_spec (fc : FCtx) : ∀ (s : Stmt) (prev : Option Nat) (st : St), coreS s = true → Inv st →
+    (∀ k, prev = some k → k < st.pop.length) → (buildStmt fc prev s st).2.ok = true → StmtSpec fc prev s st
+  | .while_ e b, prev, st, hc, hinv, hprev, hok => by
+    simp only [coreS, Bool.and_eq_true] at hc
+    exact while_spec hc.1 hinv hprev hok (fun st' ho => buildStmts_ok_mono_core fc b none st' hc.2 ho) (fun st' hi ho =>
+      buildStmts_spec fc b none st' hc.2 hi (by intro k h; cases h) (okAll_of_ok fc b none st' hc.2 ho))
+  | .assign l r, prev, st, hc, hinv, hprev, hok =>
+    buildStmt_spec0 fc _ prev st (by simpa [coreS] using hc) hinv hprev hok
+  | .ret oe, prev, st, hc, hinv, hprev, hok =>
+    buildStmt_spec0 fc _ prev st (by simpa [coreS] using hc) hinv hprev hok
+  | .brk, prev, st, hc, hinv, hprev, hok =>
+    buildStmt_spec0 fc _ prev st (by simpa [coreS] using hc) hinv hprev hok
+  | .cont, prev, st, hc, hinv, hprev, hok =>
+    buildStmt_spec0 fc _ prev st (by simpa [coreS] using hc) hinv hprev hok
+  | .ctl, prev, st, hc, hinv, hprev, hok =>
+    buildStmt_spec0 fc _ prev st (by simpa [coreS] using hc) hinv hprev hok
+  | .create v kl, prev, st, hc, hinv, hprev, hok =>
+    buildStmt_spec0 fc _ prev st (by simpa [coreS] using hc) hinv hprev hok
+  | .createNV kl, prev, st, hc, hinv, hprev, hok =>
+    buildStmt_spec0 fc _ prev st (by simpa [coreS] using hc) hinv hprev hok
+  | .delete v, prev, st, hc, hinv, hprev, hok =>
+    buildStmt_spec0 fc _ prev st (by simpa [coreS] using hc) hinv hprev hok
+  | .relate a b r ph, prev, st, hc, hinv, hprev, hok =>
+    buildStmt_spec0 fc _ prev st (by simpa [coreS] using hc) hinv hprev hok
+  | .relateU a b r ph u, prev, st, hc, hinv, hprev, hok =>
+    buildStmt_spec0 fc _ prev st (by simpa [coreS] using hc) hinv hprev hok
+  | .unrelate a b r ph, prev, st, hc, hinv, hprev, hok =>
+    buildStmt_spec0 fc _ prev st (by simpa [coreS] using hc) hinv hprev hok
+  | .unrelateU a b r ph u, prev, st, hc, hinv, hprev, hok =>
+    buildStmt_spec0 fc _ prev st (by simpa [coreS] using hc) hinv hprev hok
+  | .selFrom c v kl, prev, st, hc, hinv, hprev, hok =>
+    buildStmt_spec0 fc _ prev st (by simpa [coreS] using hc) hinv hprev hok
+  | .selFromW c v kl w, prev, st, hc, hinv, hprev, hok => by simp [coreS, coreS0] at hc
+  | .selRel c v hd ch, prev, st, hc, hinv, hprev, hok => by simp [coreS, coreS0] at hc
+  | .selRelW c v hd ch w, prev, st, hc, hinv, hprev, hok => by simp [coreS, coreS0] at hc
+  | .forEach v sv b, prev, st, hc, hinv, hprev, hok => by simp [coreS, coreS0] at hc
+  | .if_ e b el els, prev, st, hc, hinv, hprev, hok => by simp [coreS, coreS0] at hc
+  | .invoke e, prev, st, hc, hinv, hprev, hok => by simp [coreS, coreS0] at hc
+  | .genEvt l m d t, prev, st, hc, hinv, hprev, hok => by simp [coreS, coreS0] at hc
+  | .createEvt v l m d t, prev, st, hc, hinv, hprev, hok => by simp [coreS, coreS0] at hc
+  | .genPre e, prev, st, hc, hinv, hprev, hok => by simp [coreS, coreS0] at hc
 theorem buildStmts_spec (fc : FCtx) : ∀ (ss : Block) (prev : Option Nat) (st : St), coreB ss = true → Inv st →
     (∀ k, prev = some k → k < st.pop.length) → okAll fc prev ss st = true → ChainSpec fc prev ss st
   | .nil, prev, st, _, hinv, _, hok => by
@@ -1271,6 +1676,7 @@ theorem buildStmts_spec (fc : FCtx) : ∀ (ss : Block) (prev : Option Nat) (st :
         intro x hx k hk
         have := hext x hx k hk
         omega
+end
 
 /-! ### whole bodies -/
 
@@ -1286,12 +1692,6 @@ theorem bodySt_inv : Inv bodySt := by
     simp [Row.valOf, Row.smtOf, skeys]
   · intro n v h
     simp [bodySt, pushScope, findSym, List.lookup] at h
-
-theorem isElifOrElse_false {q : FlatPop} {s : Nat} {row : Row} (h : smtSub q s = some row) (hi : ikeys row = []) :
-    isElifOrElse q s = false := by
-  unfold isElifOrElse
-  rw [h]
-  cases row <;> simp [ikeys] at hi ⊢
 
 /-- reading back the population of a whole body (`coreB`: statements of `coreS`, no nested block) prints the body -/
 theorem lenB_le_szB : ∀ ss : Block, lenB ss ≤ szB ss
